@@ -36,7 +36,11 @@ func hasBothNames(list string) bool {
 	return src && ig
 }
 
-func flowSQLScope(w *World) []*Obligation {
+func flowSQLScope(prop string) func(w *World) []*Obligation {
+	return func(w *World) []*Obligation { return sqlScope(w, prop) }
+}
+
+func sqlScope(w *World, prop string) []*Obligation {
 	var obls []*Obligation
 	var pps []string
 	for pp := range w.spkgs {
@@ -96,18 +100,21 @@ func flowSQLScope(w *World) []*Obligation {
 								ok2, detail = false, "the statement neither binds src_name and ig_name to parameters nor groups by the pair"
 							}
 						}
-						obls = append(obls, flowObl("C04", fmt.Sprintf("%s:sql-scope#%d", fname, len(seen)), "a statement modifying shovel.task_updates acts on one (src_name, ig_name) pair, or on every pair separately", ok2, detail+"statement: "+flat))
+						obls = append(obls, flowObl(prop, fmt.Sprintf("%s:sql-scope#%d", fname, len(seen)), "a statement modifying shovel.task_updates acts on one (src_name, ig_name) pair, or on every pair separately", ok2, detail+"statement: "+flat))
 					}
 				}
 			}
 		}
 	}
 	if n == 0 {
-		obls = append(obls, flowObl("C04", "sql-scope:none", "statements modifying shovel.task_updates found", false, "no such statement found in the repository: the check no longer sees the SQL text"))
+		obls = append(obls, flowObl(prop, "sql-scope:none", "statements modifying shovel.task_updates found", false, "no such statement found in the repository: the check no longer sees the SQL text"))
 	}
 	return obls
 }
 
 func init() {
-	flowChecks["C04"] = append(flowChecks["C04"], flowSQLScope)
+	// C04: one pair's statements never touch another pair's records; C06: the
+	// position a task resumes from is not removed by a statement meant for others
+	flowChecks["C04"] = append(flowChecks["C04"], flowSQLScope("C04"))
+	flowChecks["C06"] = append(flowChecks["C06"], flowSQLScope("C06"))
 }
